@@ -9,7 +9,8 @@ CLAIMED = {
             'state (all positive powers, all valid signal/ASE/NLI splits, k<=3 channels; 4 thorough) and z3 decides that the '
             'split invariant and the power bookkeeping hold on the post-state on every path; one inductive step covers '
             'histories of any length. The reported-ratio identity also with the ASE (or NLI) share exactly zero; after an amplifier '
-            'call the input spectrum object still carries its own split (no aliasing).',
+            'call the input spectrum object still carries its own split (no aliasing); a constructed object holds exactly the shares it was '
+            'given; merging 1-4 band pieces in any order keeps every carrier once.',
             'floats modelled as reals; bounds on channel count; z3, symx operator overloading, numpy object dispatch trusted',
             'DESIGN.md §2 C01'),
     'C02': ('symx',
@@ -19,7 +20,7 @@ CLAIMED = {
             'decides GSNR/OSNR_ASE/SNR_NLI non-increase, equality for passive elements, ASE-only for amplifiers, NLI-only for fibres, '
             'for all powers/splits/gains/losses within the bound (k<=3; 4 thorough). GGN methods with NLI computed on a subset of the '
             'channels: for arbitrary non-negative efficiencies of the computed channels (stub for the numerical integrals) the real '
-            'compute_nli gives no channel a negative NLI.',
+            'compute_nli gives no channel a negative NLI; rebuilding a spectrum keeps every share however small.',
             'floats as reals; Raman off; flat amplifier profile; concrete fibre types; z3 and symx trusted',
             'DESIGN.md §2 C02'),
     'C06': ('symx',
@@ -47,7 +48,8 @@ CLAIMED = {
             'channel): effective gain = min(set, p_max - Pin), G*Pin <= p_max, out = (in+h.f.B.NF)*G/VOA per share, out-of-band '
             'channels dropped; NF(gain_flatmax)=nf_min, NF(gain_min)=nf_max, monotone, dB-for-dB below gain_min, Friis for dual stage; '
             'estimate_nf_model on symbolic datasheets (thorough). Symbolic lower band edge around the first carrier (slot inside / '
-            'straddling / outside, one carrier left); the same instance after another comb of equal channel count equals a fresh one.',
+            'straddling / outside, one carrier left); the same instance after another comb of equal channel count equals a fresh one; '
+            'OpenROADM noise masks for a symbolic total input power on 50/75/100 GHz grids.',
             'floats as reals; flat profile only (tilt/ripple normalisation is an approximation, outside the claim); math.isclose by '
             'its real definition',
             'DESIGN.md §2 C04'),
@@ -58,7 +60,8 @@ CLAIMED = {
             '= input / (att_in+con_in+loss_coef*L+lumped+con_out), CD and latency additive, PMD/PDL in quadrature, all 6 orders of '
             'Fiber-Roadm-Edfa give the same totals; Raman ON (perturbative order 1-2, numerical) with zero coupling and symbolic lumped '
             'losses (on and off the solver grid) reduces to exp(-aL) * each lumped loss exactly once; latency of the spans made by '
-            'split_fiber adds up to that of the original fibre (symbolic length).',
+            'split_fiber adds up to that of the original fibre (symbolic length); first-order perturbative Raman solution with symbolic '
+            'coupling coefficients and per-frequency loss.',
             'floats as reals; concrete fibre variants; Raman sub-claims about method agreement, orders 3-4, iterative co/counter solver '
             'and pump gain are outside the technique (no bounded exact assertion); Fiber.cr and interp1d stubbed in H5c',
             'DESIGN.md §2 C05'),
@@ -80,7 +83,8 @@ CLAIMED = {
             'padded by exactly the deficit (single, spliced, two-span lines); designed_network on 5 shapes x 8 line flavours: every '
             'amplifier complete, junctions amplified, one-in/one-out chains, unique names, reachability unchanged; also with a transceiver '
             'plugged straight onto a line and max_length given in metres; split of per-frequency-loss, per-frequency-dispersion and '
-            'lumped-loss fibres keeps loss/dispersion over the spectrum (known finding: lumped losses duplicated, see known_findings.json).',
+            'lumped-loss fibres keeps loss/dispersion over the spectrum (known finding: lumped losses duplicated, see known_findings.json); a '
+            'RamanFiber span in every position relative to amplifiers; select_edfa never fails internally.',
             'floats as reals; pipeline-level harness uses concrete parameters per shape (structure obligations), shapes listed in the evidence',
             'DESIGN.md §2 C08'),
     'C09': ('symx',
@@ -91,7 +95,8 @@ CLAIMED = {
             'state in power mode (with/without operator delta_p and VOA) and gain mode: gain = loss since previous amplifier + change of '
             'target + VOAs, total design power <= p_max, operator gain/offset kept unless saturating (inductive step along an OMS); '
             'set_egress_amplifier over a two-span OMS with symbolic span losses and automatic output VOA on/off: gains telescope; '
-            'auto-selected model (EDFA, Raman/hybrid, fixed-gain sub-libraries): total design power <= p_max of the model picked.',
+            'auto-selected model (EDFA, Raman/hybrid, fixed-gain sub-libraries): total design power <= p_max of the model picked; OMS starting '
+            'at a transceiver with symbolic tx_power_dbm; spliced span with symbolic lengths: offset rule on the padded loss of the whole span.',
             'floats as reals; imposed amplifier type; no Raman gain / SRS deviation; span loss injected via the design_span_loss cache',
             'DESIGN.md §2 C09'),
     'C10': ('symx',
@@ -100,7 +105,8 @@ CLAIMED = {
             'select_edfa over sub-libraries of the shipped equipment (3-4 models incl. Raman hybrids) for all required gains, powers and '
             'extended-gain allowances in the bound: result permitted, capable whenever some permitted model is, and no capable model has a '
             'lower NF at that gain; get_node_restrictions follows own list > booster list > preamp list > allowed_for_design and the band '
-            'filter for symbolic band edges; Raman models only after fibres whose whole loss table is below the limit (real design run).',
+            'filter for symbolic band edges; Raman models only after fibres whose whole loss table is below the limit (real design run); '
+            'preselect_multiband_amps keeps every group that delivers within the extended-gain allowance (synthetic two-group library).',
             'floats as reals; exact capability boundaries excluded; NF model itself is C04; sub-libraries listed in the evidence',
             'DESIGN.md §2 C10'),
     'C11': ('symx',
@@ -112,7 +118,8 @@ CLAIMED = {
             'shorter (all length orderings explored by forking, each obligation a linear-arithmetic z3 query); unsatisfiable STRICT => '
             'NO_PATH_WITH_CONSTRAINT, unsatisfiable LOOSE => unconstrained optimum; reverse path visits the same sites reversed. After the '
             'real add_missing_elements_in_network split a link (symbolic length <= 500 km) edge weights still equal fibre lengths and the '
-            'route is the shortest; include lists on both requests of a disjunction group are respected.',
+            'route is the shortest (also after add_inline_amplifier between two fibres); include lists on both requests of a disjunction group '
+            'and lists of three ROADMs in every order are respected.',
             'floats as reals; lengths in generic position (no exact ties); minimality up to 1 m; shapes listed in the evidence',
             'DESIGN.md §2 C11'),
     'C12': ('symx',
@@ -121,7 +128,7 @@ CLAIMED = {
             'Groups of 2 and 3 requests and two groups sharing a request on 3-4 site meshes: every returned combination is link-disjoint '
             'in both directions and respects STRICT include nodes for every ordering of the candidate routes (symbolic lengths); a '
             'DisjunctionError for a single pair only when no disjoint pair exists. Groups pass through deduplicate_disjunctions (nested and '
-            'duplicate groups); include lists on every request incl. mixed STRICT/LOOSE hop types.',
+            'duplicate groups, cycles of pair groups, link/node/both diversity); include lists on every request incl. mixed STRICT/LOOSE hop types.',
             'floats as reals; generic lengths; 9 request/group configurations listed in the evidence',
             'DESIGN.md §2 C12'),
     'C13': ('symx',
@@ -131,7 +138,8 @@ CLAIMED = {
             'symbolic values); on a real Transceiver-Roadm-line-Roadm-Transceiver path with an environment stub for the line, the verdict '
             'of compute_path_with_disjunction is feasible <=> min_i(GSNR_0.1nm - penalty) >= OSNR + margin outside the +-0.005 rounding '
             'band, for both directions when bidirectional, impairments outside the penalty table block, auto mode = first feasible mode in '
-            '(baud, bit rate) order among those fitting the spacing; penalty tables normalised at load.',
+            '(baud, bit rate) order among those fitting the spacing, each mode with its own transmitter OSNR (differential against the mode '
+            'imposed); impairments above and below the table block; penalty tables normalised at load.',
             'floats as reals; 2-4 channels; concrete penalty tables and tx/add-drop OSNR in the verdict harness; LineStub environment stub',
             'DESIGN.md §2 C13'),
     'C15': ('symx+fp-lemma',
@@ -153,7 +161,8 @@ CLAIMED = {
             'for all powers and p_max on the explored paths (saturating and non-saturating), amplifier settings of the network unchanged, '
             'every request reported under its own id. requests_from_json: every attribute of a request equals the one parsed alone for '
             'every present/null/absent pattern of the optional keys of both requests; compute_path_dsjctn on meshes with symbolic '
-            'lengths: route and blocking reason of each of two requests equal those obtained alone.',
+            'lengths: route and blocking reason of each of two requests equal those obtained alone; no reverse path on unidirectional requests; '
+            'simulation parameters unchanged by NLI computation.',
             'floats as reals; NLI stubbed to zero in this harness; 2-3 channels per request; paths explored within the time budget (not '
             'exhaustive); spectrum slots not compared',
             'DESIGN.md §2 C16'),
@@ -165,7 +174,8 @@ CLAIMED = {
             'values and library defaults: connector losses and pads unchanged (known finding: EOL re-added, see known_findings.json); '
             'designed_network twice and through export/reload on 40 shapes and shipped examples gives identical JSON; SimParams snapshot '
             'identical before/after auto-design with a RamanFiber for 4 user settings. RamanFiber export/reload keeps pump powers for every '
-            'connector loss; designing the designed object again in place changes nothing (automatic output VOA on/off).',
+            'connector loss; designing the designed object again in place changes nothing (automatic output VOA on/off, power/gain mode; known '
+            'finding for operator delta_p with automatic VOA); Roadm export/reload with per-degree targets of all three kinds.',
             'floats as reals; pipeline-level harness with concrete parameters (EOL=0); JSON passed as dicts',
             'DESIGN.md §2 C17'),
     'C20': ('crosshair+symx',
@@ -178,7 +188,7 @@ CLAIMED = {
             'facing the named neighbour; a Service row converts units, route list, strictness and disjunction group; route-name correction '
             'for every <=3-name route over a 7-name vocabulary (value-forked). CrossHair verdicts are time-boxed (bounded bug hunting) '
             'except where it reports "Confirmed over all paths". Per-direction Links cells (filled in / empty / absent / symbolic real '
-            'incl. 0) and Eqpt cells land on the element of their own direction.',
+            'incl. 0) and Eqpt cells land on the element of their own direction; routes naming in-line sites across fused sites.',
             'cell layer (xlrd/openpyxl, cell typing) replaced by in-memory rows; time-boxed CrossHair; small vocabularies',
             'DESIGN.md §2 C20'),
     'C19': ('symx',
@@ -189,7 +199,7 @@ CLAIMED = {
             'the RIGHT direction\'s receiver rounded to two decimals, penalties are that direction\'s; results_to_json has one entry per '
             'request; the CSV row states the same values and its pass flag is equivalent to lowest SNR >= OSNR + margin; aggregation joins '
             'only identical requests (id joined, bandwidth summed). A request blocked at spectrum assignment is reported as no-path with '
-            'its reason.',
+            'its reason; operator-fixed slots at N = 0 are reported.',
             'floats as reals; 3 channels; csv.DictWriter replaced by a row recorder; line environment stub as in C13',
             'DESIGN.md §2 C19'),
     'C18': ('crosshair',
@@ -199,7 +209,7 @@ CLAIMED = {
             'nf_fit_coef, raman coefficient, none<->[None], default ROADM type_variety), the namespace stripping, the integer/decimal '
             'dispatch of convert_dict/convert_back and the Transceiver other_name expansion: back(to(d)) == d, to(to(d)) == to(d), '
             'structure preserved, every alias reports its own name; two ROADMs with their own per-degree bands/targets do not leak into '
-            'each other. "Confirmed over all paths" within the document bound for most '
+            'each other; Edfa and mode other_name aliases. "Confirmed over all paths" within the document bound for most '
             'harnesses; the rest are time-boxed bounded bug hunting (no counterexample in 25 s / 120 s).',
             'documents <= 2 elements, leaves <= 2-4 items, strings <= 26 chars; libyang validation, file I/O and CPython float '
             'formatting trusted; composed legacy_to_yang/yang_to_legacy on whole files not symbolically executed',
